@@ -26,7 +26,7 @@ import Rox.Lemmas.LdRefine
 import Rox.Lemmas.DocSpans
 import Rox.Props.C08Base
 import Rox.Props.C14Base
-import Rox.Props.C16
+import Rox.Props.C16Base
 
 namespace Rox.Props.C08.Reject
 open Rox Rox.TM Rox.Lemmas
